@@ -73,8 +73,12 @@ def check_ds(kind, combos, shuffle, spelling, via_runner):
     return probs
 
 
+def ftuple(a, b, c=0, big=None):
+    return (a + c, b)          # ONE output whose value is a tuple
+
+
 def check_df(combos, shuffle, kind):
-    fn = {"one": f1, "two": f2, "str": fstr}[kind]
+    fn = {"one": f1, "two": f2, "str": fstr, "tuple-valued": ftuple}[kind]
     vn = ["x", "y"] if kind == "two" else "x"
     with quiet():
         df = xyz.combo_runner_to_df(fn, combos, vn, constants={"c": 1}, resources={"big": 0}, attrs={"note": "n"}, shuffle=shuffle, verbosity=0)
@@ -176,7 +180,7 @@ for rep in range(6):
                 pr = check_ds(kind, combos, shuffle, rep % 3, via_runner)
                 if pr:
                     finish(True, input=dict(form="Dataset", outputs=kind, combos=combos, shuffle=shuffle, via_runner=via_runner), observed=pr, tried=tried)
-        for kind in ("one", "two", "str"):
+        for kind in ("one", "two", "str", "tuple-valued"):
             tried += 1
             pr = check_df(combos, shuffle, kind)
             if pr:
